@@ -18,11 +18,13 @@ import time
 VERIF = os.path.dirname(os.path.dirname(os.path.abspath(__file__)))
 REPO = os.environ.get("VERIF_REPO", "/repo")
 SPEC = os.path.join(VERIF, "spec")
-WORK = os.path.join(VERIF, "work")
-HARNESS = os.path.join(VERIF, "harness")
+# (the three overrides below exist for bin/try_seed_iso, which runs a check against a scratch copy of
+# /repo with a seeded change applied while /repo itself is in use; registered commands never set them)
+WORK = os.environ.get("VERIF_WORK", os.path.join(VERIF, "work"))
+HARNESS = os.environ.get("VERIF_HARNESS", os.path.join(VERIF, "harness"))
 VH = os.path.join(HARNESS, "target", "release", "vh")
-EVIDENCE = os.path.join(VERIF, "evidence")
-REPLAYS = os.path.join(VERIF, "replays")
+EVIDENCE = os.environ.get("VERIF_EVIDENCE", os.path.join(VERIF, "evidence"))
+REPLAYS = os.path.join(WORK, "replays") if "VERIF_WORK" in os.environ else os.path.join(VERIF, "replays")
 FINDINGS = os.path.join(VERIF, "known_findings.json")
 
 NCPU = os.cpu_count() or 4
